@@ -803,8 +803,9 @@ def blocks(data, min_len=2, max_len=np.inf, wrap=False, digits=None, only_nonzer
         if only_nonzero and not bool(data[0]):
             return blocks
 
-        # if all values are True or False we can exit
-        if len(blocks) == 1 and len(blocks[0]) == len(data):
+        # if all values are identical there is a single chunk
+        # which has no other end to be combined with
+        if len(infl_len) == 1:
             return blocks
 
         # so now first point equals last point, so the cases are:
@@ -817,15 +818,26 @@ def blocks(data, min_len=2, max_len=np.inf, wrap=False, digits=None, only_nonzer
         # last point is in a block
         last = len(blocks) > 0 and blocks[-1][-1] == (len(data) - 1)
 
+        # combined length of the chunk which wraps around the end
+        combined = infl_len[0] + infl_len[-1]
         # CASE: first and last point are BOTH in block: combine blocks
         if first and last:
-            blocks[0] = np.append(blocks[-1], blocks[0])
-            blocks.pop()
+            if combined > max_len:
+                # the combined block is too long so neither end is a block
+                blocks.pop()
+                blocks.pop(0)
+            else:
+                blocks[0] = np.append(blocks[-1], blocks[0])
+                blocks.pop()
         else:
-            # combined length
-            combined = infl_len[0] + infl_len[-1]
             # exit if lengths aren't OK
             if combined < min_len or combined > max_len:
+                # an end which was a block by itself is only a
+                # fragment of the too-long combined chunk
+                if first:
+                    blocks.pop(0)
+                elif last:
+                    blocks.pop()
                 return blocks
             # new block combines both ends
             new_block = np.append(
